@@ -203,12 +203,19 @@ def scalar_term(sc):
     return ("sym", "k") if sc[1] is None else NP.as_term(sc[1])
 
 
-def case_scalar(prog, op, A, sc, reflected, taint_mode="abort"):
-    """x op k  /  k op x  for a plain number k"""
+def case_scalar(prog, op, A, sc, reflected, taint_mode="abort", x_class=None):
+    """x op k  /  k op x  for a plain number k (x: a FlodymArray or one of its subclasses)"""
     w = World(prog, taint_mode)
     form = f"{sc[0]} {op} x" if reflected else f"x {op} {sc[0]}"
-    case = Case("arith-scalar", op, f"FlodymArray.{op}", {"form": form, "x_dims": list(A), "number": sc[0]})
-    x = w.array("x", A)
+    case = Case("arith-scalar", op, f"FlodymArray.{op}", {"form": form, "x_dims": list(A), "number": sc[0], **({"x_class": x_class} if x_class else {})})
+    if x_class == "Flow":
+        P = prog.cls("Process")
+        extra = dict(from_process=w.it.construct(P, [], dict(name="sysenv", id=0)), to_process=w.it.construct(P, [], dict(name="use", id=1)))
+        x = w.array("x", A, cls=prog.cls("Flow"), **extra)
+    elif x_class:
+        x = w.array("x", A, cls=prog.cls(x_class))
+    else:
+        x = w.array("x", A)
     k = scalar_value(sc)
     snaps = w.snap(x)
     X, K = leaf_term("x", A, w), scalar_term(sc)
@@ -267,6 +274,11 @@ def arith_cases(prog, alpha, lists=None, taint_mode="abort"):
                 yield lambda op=op, A=A, sc=sc: case_scalar(prog, op, A, sc, False, taint_mode)
             for op in ("__radd__", "__rsub__", "__rmul__", "__rtruediv__"):
                 yield lambda op=op, A=A, sc=sc: case_scalar(prog, op, A, sc, True, taint_mode)
+        if len(A) <= 2:
+            # the operand is a Flow / Parameter / StockArray: a plain number still behaves as an array of x's dimensions
+            for xc in ("Flow", "Parameter", "StockArray"):
+                for op in ("__add__", "__mul__", "__pow__", "minimum", "__rsub__", "__rtruediv__"):
+                    yield lambda op=op, A=A, xc=xc: case_scalar(prog, op, A, SCALARS[1], op.startswith("__r"), taint_mode, x_class=xc)
         for op, fn in UNARY:
             yield lambda op=op, fn=fn, A=A: case_unary(prog, op, fn, A, taint_mode)
         # histories: an operand is written in place between two evaluations of the same expression (memoised partial results are seen)
@@ -328,9 +340,14 @@ def case_sum_unknown(prog, method, A, style, taint_mode="abort"):
     elif style == "empty-string":
         arg = ("",)
         case.inp["arg"] = [""]
+    elif style == "dimension-set":       # a whole DimensionSet handed over (e.g. other.dims) that holds a dimension the array lacks
+        arg = w.dimset(tuple(A[:1]) + ("z",), dims={"z": w.dim("z", n=3)})
+        case.inp["arg"] = list(A[:1]) + ["z"]
     else:
         arg = ("z",) if style == "letters" else ("zz",) if style == "names" else (w.dim("z", n=3),)
     kind, r = run_guarded(lambda: w.it.call_method(x, method, arg))
+    if style == "dimension-set" and kind == "raise" and getattr(r, "exc_name", "") in ("TypeError", "AttributeError"):
+        return None         # the argument form itself is not accepted: nothing to judge
     if style == "objects" and method == "sum_over":
         pass       # summing over a dimension the array does not have: nothing to sum; the property asks for refusal of unknown *names*
     case.v("raises", kind == "raise", f"{method} accepted the unknown dimension {arg!r} ({describe(r, w)})")
@@ -447,10 +464,13 @@ def reduce_cases(prog, alpha, lists=None, taint_mode="abort"):
                             continue
                         yield lambda m=method, A=A, S=S, st=style: case_sum(prog, m, A, S, st, taint_mode)
                 yield lambda A=A, S=S: case_shares(prog, A, S, taint_mode)
+                if S and len(S) < len(A):
+                    # a dimension named twice is still that one dimension (also when the count then equals the number of dimensions)
+                    yield lambda A=A, S=S: case_shares(prog, A, tuple(S) + tuple(S[:1]) * (len(A) - len(S)), taint_mode)
                 if len(A) <= 2:
                     yield lambda A=A, S=S: case_shares(prog, A, S, taint_mode, dtype="int")
         for method in ("sum_to", "sum_over"):
-            for style in ("letters", "names", "run-of-letters", "empty-string") + (("objects",) if method == "sum_to" else ()):
+            for style in ("letters", "names", "run-of-letters", "empty-string") + (("objects", "dimension-set") if method == "sum_to" else ()):
                 if A or style in ("letters", "names"):
                     yield lambda m=method, A=A, st=style: case_sum_unknown(prog, m, A, st, taint_mode)
         yield lambda A=A: case_total(prog, A, taint_mode)
@@ -591,6 +611,8 @@ def rhs_variants(kv):
     out = ["number", "ndarray"]
     if "list" not in kv:
         out += ["array-same", "array-permuted", "array-permuted-extra", "array-missing", "array-other-dim"]
+        if "single" in kv:
+            out += ["array-with-keyed-dim"]       # the source still carries the dimension the key fixes to one item: summed over it, like any other
         if sum(1 for k in kv if k in ("absent", "subset")) >= 3:
             out += ["array-rotated", "array-rotated-back"]      # cyclic orders: a permutation that is not its own inverse
     return out
@@ -625,7 +647,11 @@ def case_setitem(prog, A, kv, rhs, key_style="letter", subset_pos=None, taint_mo
         inputs.append(val)
     else:
         extra = [l for l in "abcd" if l not in A][:1] if rhs == "array-permuted-extra" else []
+        if rhs == "array-with-keyed-dim":
+            extra = [l for l, kk in zip(A, kv) if kk == "single"][:1]
         rl = list(reversed(letters)) + extra if rhs in ("array-permuted-extra", "array-permuted") else list(letters)
+        if rhs == "array-with-keyed-dim":
+            rl = extra + list(letters)
         if rhs == "array-permuted" and len(letters) < 2:
             return None
         if rhs in ("array-rotated", "array-rotated-back"):
@@ -725,6 +751,25 @@ def case_ctor_wrong_shape(prog, A, how, cls_name="FlodymArray", taint_mode="abor
     kind, r = run_guarded(lambda: w.it.construct(prog.cls(cls_name), [], dict(dims=ds, values=val)))
     case.v("raises", kind == "raise", f"constructor accepted values that do not have the shape of dims ({how})")
     common_checks(case, w, [ds], snaps, kind, r)
+    return finish(case, w)
+
+
+def case_ctor_repeated_dims(prog, A, via, cls_name="FlodymArray", taint_mode="abort"):
+    """an array over a dimension set that holds one dimension twice (a subset selecting the same dimension two times): refused"""
+    w = World(prog, taint_mode)
+    sel = tuple(A) + tuple(A[:1])
+    case = Case("ctor-illformed", "__init__", f"{cls_name}.__init__", {"op": f"{cls_name} over a subset naming '{A[0]}' twice", "dims": list(sel), "via": via})
+    base = w.dimset(A)
+    snaps = w.snap(base)
+    if via == "from_dims_superset":
+        kind, r = run_guarded(lambda: w.it.call(w.it.get_attr(prog.cls(cls_name), "from_dims_superset"), [base, sel], {}))
+    else:
+        def go():
+            twice = w.it.call_method(base, "get_subset", sel)        # may itself refuse
+            return w.it.construct(prog.cls(cls_name), [], dict(dims=twice))
+        kind, r = run_guarded(go)
+    case.v("raises", kind == "raise", "an array whose dimension set holds the same letter twice was built")
+    common_checks(case, w, [base], snaps, kind, r)
     return finish(case, w)
 
 
@@ -1011,6 +1056,10 @@ def illformed_cases(prog, taint_mode="abort"):
                 if how == "transposed" and len(A) < 2:
                     continue
                 yield lambda A=A, how=how, cls=cls: case_ctor_wrong_shape(prog, A, how, cls, taint_mode)
+    for A in [("a",), ("b", "a")]:
+        for cls in ("FlodymArray", "StockArray", "Parameter"):
+            for via in ("constructor", "from_dims_superset"):
+                yield lambda A=A, cls=cls, via=via: case_ctor_repeated_dims(prog, A, via, cls, taint_mode)
     for A in [(), ("a",), ("b", "a")]:
         for cls in ("FlodymArray", "StockArray", "Parameter"):
             for values in ("none", "ndarray") + (("number",) if not A else ()):
